@@ -19,15 +19,20 @@ import (
 	"crypto/sha256"
 	"fmt"
 	"math/big"
+	"runtime"
 	"sort"
+	"strconv"
 	"strings"
 	"sync"
+	"sync/atomic"
 	"testing"
+	"time"
 
 	"github.com/ethereum/go-ethereum/common"
 	"github.com/ethereum/go-ethereum/core/rawdb"
 	"github.com/ethereum/go-ethereum/core/types"
 	"github.com/ethereum/go-ethereum/crypto"
+	"github.com/ethereum/go-ethereum/ethdb"
 	"github.com/ethereum/go-ethereum/internal/verif/mc"
 	"github.com/ethereum/go-ethereum/trie"
 	"github.com/ethereum/go-ethereum/trie/trienode"
@@ -325,6 +330,7 @@ type c22Cfg struct {
 	Buffer  int        // WriteBufferSize (0: every merged layer goes straight to the key-value store)
 	Disk    c22World   // world committed to the persistent store before the exploration
 	Preload []c22Delta // deltas then merged into the write buffer (the last one stays a diff layer unless Buffer==0)
+	Gated   bool       // asynchronous flush; the flush started by the explored operation is parked in front of its batch write while all iterators are created
 }
 
 type c22Layer struct {
@@ -339,21 +345,104 @@ type c22Stack struct {
 
 func (s *c22Stack) head() c22Layer { return s.layers[len(s.layers)-1] }
 
+// c22Gate parks the background flush of the frozen write buffer right before
+// its batch reaches the key-value store (same construction as in the C16 harness).
+type c22Gate struct {
+	armed     atomic.Bool
+	pass      atomic.Int64 // batch writes to let through before parking one
+	arrived   chan struct{}
+	mu        sync.Mutex
+	hold      chan struct{} // closed to release the parked write
+	timedOut  atomic.Bool
+	snapIters atomic.Int64 // flat-state iterators opened on the store
+}
+
+func (g *c22Gate) holdCh() chan struct{} {
+	g.mu.Lock()
+	defer g.mu.Unlock()
+	return g.hold
+}
+
+func (g *c22Gate) open() {
+	g.mu.Lock()
+	close(g.hold)
+	g.hold = make(chan struct{})
+	g.mu.Unlock()
+}
+
+type c22GateDB struct {
+	ethdb.Database
+	g *c22Gate
+}
+
+func (d *c22GateDB) NewBatch() ethdb.Batch { return &c22GateBatch{d.Database.NewBatch(), d.g} }
+func (d *c22GateDB) NewBatchWithSize(n int) ethdb.Batch {
+	return &c22GateBatch{d.Database.NewBatchWithSize(n), d.g}
+}
+func (d *c22GateDB) NewIterator(prefix []byte, start []byte) ethdb.Iterator {
+	if bytes.HasPrefix(prefix, rawdb.SnapshotAccountPrefix) || bytes.HasPrefix(prefix, rawdb.SnapshotStoragePrefix) {
+		d.g.snapIters.Add(1)
+	}
+	return d.Database.NewIterator(prefix, start)
+}
+
+type c22GateBatch struct {
+	ethdb.Batch
+	g *c22Gate
+}
+
+func (b *c22GateBatch) Write() error {
+	if b.g.armed.Load() && b.g.pass.Add(-1) < 0 {
+		hold := b.g.holdCh()
+		b.g.arrived <- struct{}{}
+		select {
+		case <-hold:
+		case <-time.After(60 * time.Second): // watchdog against a hang only; reported as harness error, never a verdict
+			b.g.timedOut.Store(true)
+		}
+	}
+	return b.Batch.Write()
+}
+
 type c22Inst struct {
-	db *Database
+	db       *Database
+	gate     *c22Gate
+	inflight bool // a flush is parked at the gate
 }
 
 func c22NewInst(cfg c22Cfg) *c22Inst {
-	db := New(rawdb.NewMemoryDatabase(), &Config{
+	in := &c22Inst{}
+	var disk ethdb.Database = rawdb.NewMemoryDatabase()
+	if cfg.Gated {
+		in.gate = &c22Gate{arrived: make(chan struct{}, 16), hold: make(chan struct{})}
+		disk = &c22GateDB{disk, in.gate}
+	}
+	in.db = New(disk, &Config{
 		WriteBufferSize:   cfg.Buffer,
 		TrienodeHistory:   -1,
-		NoAsyncFlush:      true,
+		NoAsyncFlush:      !cfg.Gated,
 		NoAsyncGeneration: true,
 	}, false)
-	return &c22Inst{db: db}
+	return in
+}
+
+// settle releases a parked flush and waits for the completion of any flush
+// through the package's own notification (diskLayer.waitFlush -> buffer.done).
+func (in *c22Inst) settle() {
+	if in.gate == nil {
+		return
+	}
+	in.gate.armed.Store(false)
+	in.gate.open()
+	in.inflight = false
+	in.db.tree.bottom().waitFlush()
+	for len(in.gate.arrived) > 0 {
+		<-in.gate.arrived
+	}
 }
 
 func (in *c22Inst) close() {
+	in.settle()
 	in.db.Close()
 	in.db.diskdb.Close()
 }
@@ -399,83 +488,270 @@ func c22Fmt(es []c22Entry) string {
 	return "[" + strings.Join(parts, " ") + "]"
 }
 
-// checkRoot runs every iterator kind at every seek position on one live root.
+// c22Job is one iterator to create and consume completely.
+type c22Job struct {
+	layer c22Layer
+	kind  string // "fast" (Database.AccountIterator/StorageIterator) or "binary"
+	acct  int    // -1: account iterator, else storage iterator of that account
+	seek  common.Hash
+}
+
+func (j c22Job) String() string {
+	if j.acct < 0 {
+		return fmt.Sprintf("%s account iterator at %v seek=%x", j.kind, j.layer.world, j.seek)
+	}
+	return fmt.Sprintf("%s storage iterator of %c at %v seek=%x", j.kind, 'A'+j.acct, j.layer.world, j.seek)
+}
+
+func (j c22Job) want() []c22Entry {
+	if j.acct < 0 {
+		return c22From(j.layer.world.accounts(), j.seek)
+	}
+	return c22From(j.layer.world.slots(j.acct), j.seek)
+}
+
+// jobs lists every iterator kind at every seek position on one live root.
 // quickTouch restricts it to the zero seek (used while replaying a prefix: it
 // only has to populate the same sorted-list caches a continuous run would have).
-func (in *c22Inst) checkRoot(l c22Layer, quickTouch bool, st *c22Stats) error {
-	db := in.db
-	lay := db.tree.get(l.root)
-	if lay == nil {
-		return fmt.Errorf("live root %x.. (%v) is not in the layer tree", l.root[:4], l.world)
-	}
-	wantA := l.world.accounts()
+func c22Jobs(l c22Layer, quickTouch bool) []c22Job {
 	aseeks, sseeks := c22AcctSeeks, c22SlotSeeks
 	if quickTouch {
 		aseeks, sseeks = aseeks[:1], sseeks[:1]
 	}
+	var out []c22Job
 	for _, kind := range []string{"fast", "binary"} {
 		for _, seek := range aseeks {
-			var it AccountIterator
-			var err error
-			if kind == "fast" {
-				it, err = db.AccountIterator(l.root, seek)
-				if err != nil {
-					return fmt.Errorf("AccountIterator(%v, seek=%x) failed: %v", l.world, seek, err)
-				}
-			} else {
-				switch x := lay.(type) {
-				case *diffLayer:
-					it = x.newBinaryAccountIterator(seek)
-				case *diskLayer:
-					it = x.newBinaryAccountIterator(seek)
-				}
-			}
-			got, err := c22Drain(it, it.Account)
-			st.iterators++
-			st.entries += len(got)
-			want := c22From(wantA, seek)
-			if err != nil {
-				return fmt.Errorf("%s account iterator at %v seek=%x: error %v after %s", kind, l.world, seek, err, c22Fmt(got))
-			}
-			if !c22Equal(got, want) {
-				return fmt.Errorf("%s account iterator at %v seek=%x yields %s, the state has %s", kind, l.world, seek, c22Fmt(got), c22Fmt(want))
-			}
+			out = append(out, c22Job{l, kind, -1, seek})
 		}
 		for a := 0; a < c22NAcct; a++ {
-			wantS := l.world.slots(a)
 			for si, seek := range sseeks {
 				if a == c22NAcct-1 && si > 0 {
 					break // account C never has storage: one (empty) iteration suffices
 				}
-				var it StorageIterator
-				var err error
-				if kind == "fast" {
-					it, err = db.StorageIterator(l.root, c22AcctHash[a], seek)
-					if err != nil {
-						return fmt.Errorf("StorageIterator(%v, %c, seek=%x) failed: %v", l.world, 'A'+a, seek, err)
-					}
-				} else {
-					switch x := lay.(type) {
-					case *diffLayer:
-						it = x.newBinaryStorageIterator(c22AcctHash[a], seek)
-					case *diskLayer:
-						it = x.newBinaryStorageIterator(c22AcctHash[a], seek)
-					}
-				}
-				got, err := c22Drain(it, it.Slot)
-				st.iterators++
-				st.entries += len(got)
-				want := c22From(wantS, seek)
-				if err != nil {
-					return fmt.Errorf("%s storage iterator of %c at %v seek=%x: error %v after %s", kind, 'A'+a, l.world, seek, err, c22Fmt(got))
-				}
-				if !c22Equal(got, want) {
-					return fmt.Errorf("%s storage iterator of %c at %v seek=%x yields %s, the state has %s", kind, 'A'+a, l.world, seek, c22Fmt(got), c22Fmt(want))
-				}
+				out = append(out, c22Job{l, kind, a, seek})
 			}
 		}
 	}
+	return out
+}
+
+// create builds the iterator of a job (it blocks while a flush of the disk
+// layer's frozen buffer is pending); panics are turned into errors.
+func (in *c22Inst) create(j c22Job) (it Iterator, value func() []byte, err error) {
+	defer func() {
+		if p := recover(); p != nil {
+			err = fmt.Errorf("panic: %v", p)
+		}
+	}()
+	db := in.db
+	lay := db.tree.get(j.layer.root)
+	if lay == nil {
+		return nil, nil, fmt.Errorf("live root %x.. (%v) is not in the layer tree", j.layer.root[:4], j.layer.world)
+	}
+	if j.acct < 0 {
+		var ai AccountIterator
+		if j.kind == "fast" {
+			if ai, err = db.AccountIterator(j.layer.root, j.seek); err != nil {
+				return nil, nil, err
+			}
+		} else {
+			switch x := lay.(type) {
+			case *diffLayer:
+				ai = x.newBinaryAccountIterator(j.seek)
+			case *diskLayer:
+				ai = x.newBinaryAccountIterator(j.seek)
+			}
+		}
+		return ai, ai.Account, nil
+	}
+	var si StorageIterator
+	if j.kind == "fast" {
+		if si, err = db.StorageIterator(j.layer.root, c22AcctHash[j.acct], j.seek); err != nil {
+			return nil, nil, err
+		}
+	} else {
+		switch x := lay.(type) {
+		case *diffLayer:
+			si = x.newBinaryStorageIterator(c22AcctHash[j.acct], j.seek)
+		case *diskLayer:
+			si = x.newBinaryStorageIterator(c22AcctHash[j.acct], j.seek)
+		}
+	}
+	return si, si.Slot, nil
+}
+
+// consume drains the iterator of a job and compares it with the reference.
+func c22Consume(j c22Job, it Iterator, value func() []byte, when string, st *c22Stats) error {
+	got, err := c22Drain(it, value)
+	st.iterators++
+	st.entries += len(got)
+	if err != nil {
+		return fmt.Errorf("%s%v: error %v after %s", when, j, err, c22Fmt(got))
+	}
+	if want := j.want(); !c22Equal(got, want) {
+		return fmt.Errorf("%s%v yields %s, the state has %s", when, j, c22Fmt(got), c22Fmt(want))
+	}
 	return nil
+}
+
+func (in *c22Inst) checkRoot(l c22Layer, quickTouch bool, st *c22Stats) error {
+	for _, j := range c22Jobs(l, quickTouch) {
+		it, value, err := in.create(j)
+		if err != nil {
+			return fmt.Errorf("%v: creation failed: %v", j, err)
+		}
+		if err := c22Consume(j, it, value, "", st); err != nil {
+			return err
+		}
+	}
+	return nil
+}
+
+// ---------------------------------------------------------------------------
+// Iterators created while a flush is parked.
+
+func c22GoID() uint64 {
+	var b [64]byte
+	f := strings.Fields(string(b[:runtime.Stack(b[:], false)]))
+	id, _ := strconv.ParseUint(f[1], 10, 64)
+	return id
+}
+
+// c22Parked reports whether every goroutine of ids is durably blocked in a
+// channel operation (that is where diskLayer.waitFlush waits for buffer.done),
+// judged from the runtime's own goroutine dump - no timing involved.
+func c22Parked(ids map[uint64]bool, buf *[]byte) bool {
+	for {
+		n := runtime.Stack(*buf, true)
+		if n < len(*buf) {
+			*buf = (*buf)[:n]
+			break
+		}
+		*buf = make([]byte, 2*len(*buf))
+	}
+	defer func() { *buf = (*buf)[:cap(*buf)] }()
+	seen := 0
+	for _, block := range strings.Split(string(*buf), "\n\n") {
+		if !strings.HasPrefix(block, "goroutine ") {
+			continue
+		}
+		rest := block[len("goroutine "):]
+		sp := strings.IndexByte(rest, ' ')
+		if sp < 0 {
+			continue
+		}
+		id, err := strconv.ParseUint(rest[:sp], 10, 64)
+		if err != nil || !ids[id] {
+			continue
+		}
+		seen++
+		state := rest[sp+1:]
+		if !(strings.HasPrefix(state, "[chan receive") || strings.HasPrefix(state, "[select")) {
+			return false
+		}
+	}
+	return seen == len(ids) // a goroutine missing from the dump has just finished: look again
+}
+
+type c22ParkStats struct{ created, waiting, storeIterators int64 }
+
+// parkedCheck is called while the flush started by the last operation is
+// parked in front of its batch write: the frozen buffer's entries are neither
+// in the live write buffer nor in the key-value store. Every iterator of every
+// live root is requested now, each on its own goroutine (the real code waits
+// for the flush inside the constructor). As soon as every creator has either
+// returned or is durably parked, the flush is released; then all iterators are
+// consumed and must enumerate exactly the reference entries.
+func (in *c22Inst) parkedCheck(s *c22Stack, r *mc.R, st *c22Stats, ps *c22ParkStats) error {
+	var jobs []c22Job
+	for _, l := range s.layers {
+		jobs = append(jobs, c22Jobs(l, false)...)
+	}
+	type result struct {
+		it    Iterator
+		value func() []byte
+		err   error
+	}
+	var (
+		results = make([]result, len(jobs))
+		idCh    = make(chan [2]uint64, len(jobs))
+		doneCh  = make(chan int, len(jobs))
+		before  = in.gate.snapIters.Load()
+	)
+	for i := range jobs {
+		go func(i int) {
+			idCh <- [2]uint64{uint64(i), c22GoID()}
+			it, value, err := in.create(jobs[i])
+			results[i] = result{it, value, err}
+			doneCh <- i
+		}(i)
+	}
+	goid := make(map[int]uint64, len(jobs))
+	for range jobs {
+		x := <-idCh
+		goid[int(x[0])] = x[1]
+	}
+	pending := make(map[int]bool, len(jobs))
+	for i := range jobs {
+		pending[i] = true
+	}
+	buf := make([]byte, 1<<20)
+	deadline := time.Now().Add(60 * time.Second)
+	for len(pending) > 0 {
+		drained := false
+		for {
+			select {
+			case i := <-doneCh:
+				delete(pending, i)
+				drained = true
+				continue
+			default:
+			}
+			break
+		}
+		if len(pending) == 0 {
+			break
+		}
+		if !drained {
+			ids := make(map[uint64]bool, len(pending))
+			for i := range pending {
+				ids[goid[i]] = true
+			}
+			if c22Parked(ids, &buf) {
+				break
+			}
+		}
+		if time.Now().After(deadline) { // watchdog against a hang only
+			r.HarnessError("c22: iterator creators neither returned nor parked while the flush was held")
+			break
+		}
+		runtime.Gosched()
+	}
+	ps.created += int64(len(jobs))
+	ps.waiting += int64(len(pending))
+	ps.storeIterators += in.gate.snapIters.Load() - before
+	// release the flush; the waiting constructors return once buffer.done is closed
+	in.gate.armed.Store(false)
+	in.gate.open()
+	in.inflight = false
+	for len(pending) > 0 {
+		delete(pending, <-doneCh)
+	}
+	var first error
+	for i, j := range jobs {
+		res := results[i]
+		switch {
+		case res.err != nil:
+			if first == nil {
+				first = fmt.Errorf("requested while the flush of the frozen buffer was pending: %v: creation failed: %v", j, res.err)
+			}
+		case first != nil:
+			res.it.Release()
+		default:
+			first = c22Consume(j, res.it, res.value, "requested while the flush of the frozen buffer was pending: ", st)
+		}
+	}
+	return first
 }
 
 // check runs the iterators on every live root. After a structural operation (or
@@ -567,6 +843,8 @@ func (in *c22Inst) fingerprint() string {
 // The explored system.
 
 type c22Shared struct {
+	r      *mc.R
+	park   c22ParkStats
 	cfg    c22Cfg
 	deltas []c22Delta
 	names  []string
@@ -581,8 +859,8 @@ const (
 	c22OpCommit = -2
 )
 
-func c22NewShared(cfg c22Cfg) *c22Shared {
-	sh := &c22Shared{cfg: cfg, deltas: c22Deltas(), counts: map[string]int64{}, shapes: map[string]bool{}}
+func c22NewShared(r *mc.R, cfg c22Cfg) *c22Shared {
+	sh := &c22Shared{r: r, cfg: cfg, deltas: c22Deltas(), counts: map[string]int64{}, shapes: map[string]bool{}}
 	for _, d := range sh.deltas {
 		sh.names = append(sh.names, d.name)
 	}
@@ -699,7 +977,49 @@ func (s *c22Sys) modelStep(st *c22Stack, op int, limit bool) bool {
 	return true
 }
 
-func (s *c22Sys) realStep(st *c22Stack, op int) error {
+// realStep executes op on the real database. park: the flush started by this
+// operation is to be parked at the gate (gated configuration, explored
+// transition only); otherwise every flush is awaited before returning.
+func (s *c22Sys) realStep(st *c22Stack, op int, park bool) error {
+	in := s.in
+	in.settle()
+	flushes := 0
+	if in.gate != nil && park {
+		switch op {
+		case c22OpCommit:
+			flushes = len(st.layers) - 1 // forced: every merged layer is flushed, each waits for the previous one
+		case c22OpMerge:
+			if s.sh.cfg.Buffer == 0 {
+				flushes = 1
+			}
+		}
+		if flushes > 0 {
+			in.gate.pass.Store(int64(flushes - 1))
+			in.gate.armed.Store(true)
+		}
+	}
+	err := s.realOp(st, op)
+	if flushes > 0 {
+		if fr := in.db.tree.bottom().frozen; fr != nil && fr.done != nil {
+			select {
+			case <-in.gate.arrived:
+				in.inflight = true
+			case <-fr.done:
+			}
+		}
+		if !in.inflight {
+			in.gate.armed.Store(false)
+		}
+	} else if in.gate != nil {
+		in.db.tree.bottom().waitFlush()
+	}
+	if in.gate != nil && in.gate.timedOut.Load() {
+		s.sh.r.HarnessError("c22: flush gate watchdog fired")
+	}
+	return err
+}
+
+func (s *c22Sys) realOp(st *c22Stack, op int) error {
 	db := s.in.db
 	switch op {
 	case c22OpMerge:
@@ -733,7 +1053,7 @@ func (s *c22Sys) materialise() {
 	st := s.sh.initialStack()
 	var stats c22Stats
 	for _, op := range s.sh.preloadOps() {
-		if err := s.realStep(st, op); err != nil {
+		if err := s.realStep(st, op, false); err != nil {
 			panic(fmt.Sprintf("c22: preload %d: %v", op, err))
 		}
 		s.modelStep(st, op, false)
@@ -745,7 +1065,7 @@ func (s *c22Sys) materialise() {
 	}
 	for _, i := range s.trace {
 		op := s.opOf(i)
-		if err := s.realStep(st, op); err != nil {
+		if err := s.realStep(st, op, false); err != nil {
 			s.err = fmt.Errorf("replay divergence at prefix op %s: %v", s.sh.names[i], err)
 			return
 		}
@@ -769,15 +1089,29 @@ func (s *c22Sys) Apply(i int) error {
 	if s.err != nil {
 		return s.err
 	}
-	if err := s.realStep(s.stack, op); err != nil {
+	if err := s.realStep(s.stack, op, true); err != nil {
 		return fmt.Errorf("%s failed: %v", s.sh.names[i], err)
 	}
 	s.modelStep(s.stack, op, true)
 	s.trace = append(s.trace, i)
 	var st c22Stats
-	err := s.in.check(s.stack, false, op < 0 || len(s.trace) == 1, &st)
+	var ps c22ParkStats
+	var err error
+	if s.in.inflight {
+		err = s.in.parkedCheck(s.stack, s.sh.r, &st, &ps)
+	}
+	s.in.settle()
+	if err == nil { // and once more right after the release
+		err = s.in.check(s.stack, false, op < 0 || len(s.trace) == 1, &st)
+	}
 	sh := s.sh
 	sh.mu.Lock()
+	sh.park.created += ps.created
+	sh.park.waiting += ps.waiting
+	sh.park.storeIterators += ps.storeIterators
+	if ps.created > 0 {
+		sh.counts["flush parked while all iterators were requested"]++
+	}
 	switch op {
 	case c22OpMerge:
 		sh.counts["merge"]++
@@ -826,11 +1160,14 @@ func TestVerif_C22(t *testing.T) {
 		maxDiffLayers = 64 // never flatten implicitly: the structural operations do it
 		r.Rule("explicit-state BFS over layer stacks of the real pathdb.Database: one delta per layer out of {account create/modify, destruct, destruct+recreate with fresh storage, slot set, slot delete} " +
 			"over 3 accounts x 2 slots, plus merge-bottom-diff-into-disk-layer and Commit(head), on prepared bases; after every operation every live root is iterated with the fast and the binary " +
-			"account iterator and all storage iterators from every seek position; state key = worlds of the stack + content/list caches of all layers, write buffer and flat store")
+			"account iterator and all storage iterators from every seek position; in the async-parked configurations the flush started by the explored operation is parked in front of its key-value batch write, " +
+			"all iterators of all live roots are requested in that window (each on its own goroutine), the flush is released once every creator has returned or is durably blocked, and all of them are consumed; " +
+			"state key = worlds of the stack + content/list caches of all layers, write buffer and flat store")
 		r.Bound("accounts", c22NAcct)
 		r.Bound("slots_per_account", c22NSlot)
 		r.Bound("account_seek_positions", len(c22AcctSeeks))
 		r.Bound("slot_seek_positions", len(c22SlotSeeks))
+		r.Assume("async-parked: the only concurrency is iterator construction vs. one pending flush, forced deterministically (gate in a wrapper of the key-value store; 'creator blocked' is read from the runtime's goroutine dump, wall-clock only as a hang watchdog that yields a harness error); flushes in prefix replays are awaited through diskLayer.waitFlush")
 		r.Assume("reference = per-root world (sorted existing entries >= seek); its order is cross-checked once per world against the leaf order of a trie built from it; synthetic account/slot hashes and layer roots (flat state and iterators never check pre-images or roots)")
 		rich := c22World{{N: 1, S: [2]uint8{1, 1}}, {N: 1, S: [2]uint8{0, 1}}, {N: 1}}
 		ds := c22Deltas()
@@ -852,23 +1189,36 @@ func TestVerif_C22(t *testing.T) {
 		dq := mc.Pick(r, 3, 4)
 		plans := []plan{
 			{c22Cfg{Name: "fresh/buf1M", Buffer: 1 << 20}, mc.Pick(r, 3, 5)},
-			{c22Cfg{Name: "store/buf1M", Buffer: 1 << 20, Disk: rich}, dq},
+			// asynchronous flush: the last flush started by the explored operation (a Commit; with write buffer 0 also a
+			// merge) is parked in front of its batch write while all iterators of all live roots are requested
+			{c22Cfg{Name: "store/buf1M/async-parked", Buffer: 1 << 20, Disk: rich, Gated: true}, dq},
 			{c22Cfg{Name: "store+buffer/buf1M", Buffer: 1 << 20, Disk: rich, Preload: buffered}, dq},
 			{c22Cfg{Name: "store/buf0", Buffer: 0, Disk: rich}, mc.Pick(r, 2, 4)},
+			{c22Cfg{Name: "store+diff/buf0/async-parked", Buffer: 0, Disk: rich, Preload: buffered[3:], Gated: true}, mc.Pick(r, 2, 4)},
+		}
+		if r.Thorough() {
+			plans = append(plans, plan{c22Cfg{Name: "store/buf1M", Buffer: 1 << 20, Disk: rich}, 4})
 		}
 		for _, p := range plans {
 			if r.Expired() {
 				break
 			}
-			sh := c22NewShared(p.cfg)
+			sh := c22NewShared(r, p.cfg)
 			r.Bound(p.cfg.Name+".depth", p.depth)
 			r.Explore(mc.Config{Name: "C22/pathdb/" + p.cfg.Name, Ops: sh.names, Depth: p.depth, New: sh.newSys, Close: c22Close})
 			for k, v := range sh.counts {
 				r.OutcomeN(p.cfg.Name+"/"+k, v)
 			}
 			var tr int64
-			for _, v := range sh.counts {
-				tr += v
+			for k, v := range sh.counts {
+				if !strings.HasPrefix(k, "flush parked") {
+					tr += v
+				}
+			}
+			if p.cfg.Gated {
+				r.OutcomeN(p.cfg.Name+"/iterators requested while the flush was parked", sh.park.created)
+				r.OutcomeN(p.cfg.Name+"/of which waiting for the flush at release", sh.park.waiting)
+				r.OutcomeN(p.cfg.Name+"/store iterators opened while the flush was parked", sh.park.storeIterators)
 			}
 			r.OutcomeN(p.cfg.Name+"/transitions", tr)
 			r.OutcomeN(p.cfg.Name+"/iterator runs", int64(sh.st.iterators))
